@@ -139,6 +139,7 @@ class Executor:
             v = self._do(op)
             return ("ret", describe_ret(run, v) if op["op"] != "new" else "inst", mark)
         except BaseException as e:  # noqa
+            run.exceptions.append((len(run.log), e))
             if isinstance(e, RecursionError) and run.label_of(e) is None:
                 return ("exc", ("nonterminating", str(e)[:100]), mark)
             return ("exc", classify_exc(self.l, run, e), mark)
